@@ -31,6 +31,7 @@ PROPS = {
     "C07": "vf.harness.C07",
     "C08": "vf.harness.C08",
     "C13": "vf.harness.C13",
+    "C14": "vf.harness.C14",
 }
 
 
